@@ -542,6 +542,15 @@ class IdCheck:
                 if empty is not None:
                     a = self._emptiness(x)
                     return a if empty else T.F_not(a)
+                if (o, k) in ((ast.GtE, 0),):
+                    return ('const', True)
+                if (o, k) in ((ast.Lt, 0),):
+                    return ('const', False)
+                # any other size test is a free (but not opaque) atom: it says nothing about clashes
+                what = f"{x.a.members()}&{x.b.members()}" if isinstance(x, MeetV) else x.members()
+                name = f"N[len({what}) {o.__name__} {k}]"
+                self.atoms[name] = ('N', e)
+                return T.F_atom(name)
             # duplicates:  len(set of ids) != / < len(list)
             if isinstance(la, Coll) and isinstance(ra, Coll) and la.members() == ra.members():
                 for s_, l_, o in ((la, ra, type(op)), (ra, la, {ast.Lt: ast.Gt, ast.Gt: ast.Lt}.get(type(op), type(op)))):
@@ -765,8 +774,58 @@ def check_intersection(ctx, o, f):
         o.refute(f, f.node, 'duplicates inside the argument', "two different incoming tasks with the same id are not detected (each is only compared "
                                                               "with the receiving tree)")
         return
+    sizes = [a[1] for n, a in ic.atoms.items() if a[0] == 'N' and n in T.atoms_of(R2)]
     txt = ', '.join(f"{k}={v}" for k, v in sorted(cex.items()) if not k.startswith('_'))
+    if sizes:
+        o.refute(f, sizes[0], sizes[0], f"the result depends on the size test `{src(sizes[0])[:60]}`: the function can return False although ids "
+                                        f"clash ({txt})")
+        return
     o.refute(f, f.node, 'result', f"the function can return False although ids clash: {txt}")
+
+
+def check_collect_subtree(ctx, o, f):
+    """_collect_subtree(task) = the task itself plus, for every child, the child's subtree (or: plus all_children)"""
+    from sa.flow import Expander
+    prog = ctx.prog
+    p = f.params[0]
+    ex = Expander(prog, f, ctx.typer, inline=False)
+    includes_self = any(isinstance(n, ast.List) and any(isinstance(e, ast.Name) and e.id == p for e in n.elts) for n in ast.walk(f.node)) or \
+        any(match(f"$l.append({p})", n) for n in ast.walk(f.node))
+    rec = [c for c in facts.calls_named(f, f.name)]
+    covers = None
+    for c in rec:
+        if len(c.args) != 1 or not isinstance(c.args[0], ast.Name):
+            continue
+        v = c.args[0].id
+        its = []
+        for n in ast.walk(f.node):
+            if isinstance(n, ast.For) and isinstance(n.target, ast.Name) and n.target.id == v and any(x is c for x in ast.walk(n)):
+                its.append(ex.expand(n.iter, cfg_of(f).node_of(n)))
+            elif isinstance(n, (ast.ListComp, ast.GeneratorExp, ast.SetComp)) and any(x is c for x in ast.walk(n)):
+                its += [g.iter for g in n.generators if isinstance(g.target, ast.Name) and g.target.id == v]
+        for it in its:
+            m = match("list($x)", it)
+            it = m['x'] if m is not None else it
+            if match(f"{p}.children", it) or match(f"{p}._Task__children", it):
+                conds = [t for t in cfg_of(f).conditions(cfg_of(f).node_containing(c)) if True] if cfg_of(f).node_containing(c) is not None else []
+                covers = c if not conds else covers
+                if conds:
+                    o.refute(f, c, c, "the subtrees of only some children are collected (" + ', '.join(facts.cond_texts(conds))[:80] + ")")
+                    return
+    flat = [n for n in ast.walk(f.node) if isinstance(n, ast.Attribute) and n.attr == 'all_children' and isinstance(n.value, ast.Name) and n.value.id == p]
+    if covers is None and flat:
+        covers = flat[0]
+    if covers is not None and includes_self:
+        o.site(f, covers, "_collect_subtree = the task and the subtree of every child")
+    elif covers is not None:
+        o.refute(f, f.node, '_collect_subtree self', "_collect_subtree does not list the task itself: the ids of the given tasks / of the root are not "
+                                                     "compared")
+    elif not rec and not flat and not [c for c in walk_no_nested(f.node) if isinstance(c, ast.Call) and isinstance(c.func, (ast.Name, ast.Attribute))
+                                       and (c.func.id if isinstance(c.func, ast.Name) else c.func.attr) not in ('append', 'extend', 'list')]:
+        o.refute(f, f.node, '_collect_subtree descendants', "_collect_subtree does not descend into the children: only the task itself is compared, "
+                                                            "a duplicate id deeper in the subtree is not seen")
+    else:
+        o.undecided(f, f.node, '_collect_subtree', "subtree collection in an unrecognised form")
 
 
 def _rename(f, ren):
